@@ -209,6 +209,23 @@ func c06Seq(c *fw.Ctx, i int) {
 	seqKnown := fixed
 	nextSeq := start
 	var trace []string
+	type kept struct {
+		pkt  *rtp.Packet
+		wire []byte
+		op   int
+	}
+	var history []kept
+	recheck := func() bool {
+		for _, k := range history {
+			now, err := k.pkt.Marshal()
+			if err != nil || !bytes.Equal(now, k.wire) {
+				c.Fail("C06/history/earlier-packet-changed-by-a-later-call", fmt.Sprintf("a packet returned by operation %d serialises differently after later operations on the packetizer", k.op),
+					fw.W("payloader", c06PayloaderNames[pk], "mtu", mtu, "abs_send_time_id", absID, "ops", append([]string{}, trace...), "then", fw.Trunc(fw.Hex(k.wire), 160), "now", fw.Trunc(fw.Hex(now), 160)))
+				return false
+			}
+		}
+		return true
+	}
 	maxFrags := 0
 	didPadding := false
 	wit := func(extra ...any) map[string]any {
@@ -426,12 +443,18 @@ func c06Seq(c *fw.Ctx, i int) {
 					c.Fail("C06/packetize/does-not-parse-back", "a serialised packet does not parse: "+err.Error(), wit("wire", fw.Trunc(fw.Hex(wire), 120)))
 					return
 				}
+				if len(history) < 24 {
+					history = append(history, kept{pkt, append([]byte(nil), wire...), op})
+				}
 				if d := ref.Equal(gen.FromLib(pkt), gen.FromLib(&back)); d != "" || back.Padding != pkt.Padding {
 					c.Fail("C06/packetize/parses-back-different-in-"+sanitize(d), "a serialised packet parses back different in "+d, wit("wire", fw.Trunc(fw.Hex(wire), 120)))
 					return
 				}
 			}
 			ts += samples
+		}
+		if !recheck() {
+			return
 		}
 	}
 	kinds := ""
